@@ -21,6 +21,17 @@ Definition rstatus_eqb (a b : ro_status) : bool :=
   opt_eqb Bool.eqb (rp_term a) (rp_term b) && opt_eqb Bool.eqb (rp_succ a) (rp_succ b) && opt_eqb sub_eqb (rp_sub a) (rp_sub b).
 Definition br_eqb (a b : brel) : bool := br_spec_eqb a b && Bool.eqb (br_deleting a) (br_deleting b).
 
+(* CheckNextBatchIndexWithCorrect repairs an out-of-range nextStepIndex in memory on every reconcile; whether the repaired
+   value is also persisted depends on whether anything else in the status changed (the status writer skips equal statuses).
+   The comparison therefore reads nextStepIndex through the repair on both sides. *)
+Definition repaired_next (sp : ro_spec) (s : ro_status) : ro_status :=
+  match rp_sub s with
+  | Some u => if (su_next u <=? 0) || (nsteps sp <? su_next u)
+              then set_sub s (Some (upd_sub u (su_idx u) (next_index (nsteps sp) (su_idx u)) (su_state u) (su_fin u) (su_elapsed u))) else s
+  | None => s
+  end.
+Definition status_matches (sp : ro_spec) (a b : ro_status) : bool := rstatus_eqb (repaired_next sp a) (repaired_next sp b).
+
 Definition corresponds (c : case) : bool :=
   let o := rc_obs c in
   match reconcile (rc_spec c) (rc_status c) (rc_wl c) (rc_br c) with
@@ -29,7 +40,7 @@ Definition corresponds (c : case) : bool :=
     (* once the finalizer is dropped the object is gone; a late status write then fails harmlessly *)
     negb (ob_panic o) && (negb (o_finalizer m) || Bool.eqb (o_err m) (ob_err o)) &&
     (if o_finalizer m then negb (ob_gone o) && ob_finalizer o else (ob_gone o || negb (ob_finalizer o))) &&
-    (ob_gone o || rstatus_eqb (match o_status m with Some s => s | None => rc_status c end) (ob_status o)) &&
+    (ob_gone o || status_matches (rc_spec c) (match o_status m with Some s => s | None => rc_status c end) (ob_status o)) &&
     opt_eqb br_eqb (o_br m) (ob_br o) &&
     Bool.eqb (wl_exists (rc_wl c) && wl_in_progress (rc_wl c) && negb (o_remove_progress_anno m)) (ob_anno o) &&
     Bool.eqb (o_requeue m) (ob_requeue o)
